@@ -3,7 +3,7 @@ struct, partitions into row groups around page boundaries, page sizes, codecs.""
 import itertools
 import zoo as zoolib
 
-ZOOS = ["three", "flat", "person", "doc", "nested", "samename", "deep", "sameopt"]
+ZOOS = ["three", "flat", "person", "doc", "nested", "samename", "deep", "sameopt", "solo"]
 # structs used by the WRITER-side checks only (C02, C03, C12): the generated writer is correct for them on the
 # unchanged tree, the generated reader is not (known C05 findings: three nested repeated groups, a list inside a
 # list below an optional struct), so the reader-side checks cannot use them
